@@ -3,13 +3,13 @@
 # Confirms: patch applies, repo tests pass with it, demo fails with it and passes without it.
 d="$1"; wt="$2"
 cd "$wt" || exit 2
-git checkout -q -- . ; git clean -fdq
+git checkout -q -- .
 git apply "$d/patch.diff" || { echo "APPLY-FAIL"; exit 2; }
 t=$(/venv/bin/python -m pytest -q -p no:cacheprovider 2>&1 | tail -1)
 cp "$d/demo.py" ./_demo.py
 timeout 900 /venv/bin/python _demo.py >/dev/null 2>&1; with=$?
 git checkout -q -- .
 timeout 900 /venv/bin/python _demo.py >/dev/null 2>&1; without=$?
-rm -f _demo.py; git clean -fdq
+rm -f _demo.py
 echo "tests: $t | demo with change: exit $with | demo without: exit $without"
 if [ "$with" != 0 ] && [ "$without" = 0 ] && echo "$t" | grep -q "161 passed"; then echo CONFIRMED; else echo NOT-CONFIRMED; fi
